@@ -48,7 +48,10 @@ type DebSignature struct {
 func Sign(r io.Reader, signer *openpgp.Entity, opts crypto.SignerOpts, role string) (*DebSignature, error) {
 	counter := readercounter.New(r)
 	now := time.Now().UTC()
-	reader := ar.NewReader(counter)
+	reader, err := newArReader(counter)
+	if err != nil {
+		return nil, err
+	}
 	msg := new(bytes.Buffer)
 	fmt.Fprintln(msg, "Version: 4")
 	fmt.Fprintln(msg, "Signer:", pgptools.EntityName(signer))
